@@ -587,6 +587,27 @@ def r_labelsplit(prog, tier):
     f = prog.func('trees', 'parse_label')
     cfg = f.cfg
     L = f.params[0]
+    # co-index and gap index have separators of their own; the separator of the grammatical function (an option) is used to
+    # find the function only: `label.rfind(gf_separator)` in front of an index cut mixes the two up
+    kw_ = f.kwarg
+    optsep = set()
+    if kw_:
+        for nm_ in f.locals:
+            if any(isinstance(dv_, ast.AST) and ("%s['gf_separator']" % kw_) in unparse(dv_) for (_, dv_) in name_defs(f, nm_)):
+                optsep.add(nm_)
+    for m_ in cfg.eval_nodes():
+        if m_.kind == 'stmt' and isinstance(m_.ast, ast.Assign) and isinstance(m_.ast.value, ast.Call) \
+                and isinstance(m_.ast.value.func, ast.Attribute) and m_.ast.value.func.attr == 'rfind' and m_.ast.value.args \
+                and isinstance(m_.ast.value.args[0], ast.Name) and m_.ast.value.args[0].id in optsep \
+                and isinstance(m_.ast.targets[0], ast.Name):
+            pos_ = m_.ast.targets[0].id
+            digits = [t_ for t_ in cfg.nodes if t_.kind in ('test', 'assume') and '.isdigit()' in unparse(t_.ast) and pos_ in unparse(t_.ast)]
+            if digits:
+                obs.append(Ob('R-LABELSPLIT', f.fq, 'an index is found with its own separator', False,
+                              '`%s` looks for the LAST `%s` - the separator of the grammatical function, which an option can change - '
+                              'and what follows it is then tested for digits as an index: with another function separator a real '
+                              'index is not split off and an all-digit function is taken for one' % (
+                                  unparse(m_.ast)[:60], m_.ast.value.args[0].id), construct='split-indexsep:' + pos_, line=m_.lineno))
     # a decoration recognised by a regular expression is recognised on the whole part, not on its beginning
     for c_ in walk_own(f.node):
         if isinstance(c_, ast.Call) and isinstance(c_.func, ast.Attribute) and c_.func.attr in ('match', 'search') and c_.args:
